@@ -317,7 +317,9 @@ class LocalShare:
     def gc(self, pruneUsed, pruneUnused, dryRun=False, progress=lambda x: None, newPkg=None):
         if (self.__quota is None) and not pruneUnused:
             return None
-        if not os.path.isdir(self.__path):
+        # Nothing to collect if no package was ever installed. Somebody could
+        # be in the middle of the very first installation, though.
+        if not os.path.isfile(os.path.join(self.__path, "repo.json")):
             return 0
 
         # Create a temporary attic directory. All garbage collected packages
